@@ -20,9 +20,9 @@ RUN_WALL_WATCHDOG_S = 600.0
 CALL_WALL_WATCHDOG_S = 240.0
 
 TIERS = {
-    "quick":    {"runs": 4200, "chunk": 4, "wall_cap_s": 80, "max_ops": 24, "ilp_share": 0.06, "b_max": 25000,
+    "quick":    {"runs": 4200, "chunk": 4, "wall_cap_s": 80, "max_ops": 24, "ilp_share": 0.06, "b_max": 25000, "sweep_share": 0.008, "sweep_max": 120,
                  "det_sample_min": 8, "det_sample_frac": 0.01, "max_reports": 3, "shrink_candidates": 120},
-    "thorough": {"runs": 80000, "chunk": 8, "wall_cap_s": 1700, "max_ops": 40, "ilp_share": 0.10, "b_max": 400000,
+    "thorough": {"runs": 80000, "chunk": 8, "wall_cap_s": 1700, "max_ops": 40, "ilp_share": 0.10, "b_max": 400000, "sweep_share": 0.04, "sweep_max": 500,
                  "det_sample_min": 24, "det_sample_frac": 0.003, "max_reports": 4, "shrink_candidates": 300,
                  "fresh_interpreter_check": True, "fresh_sample": 24},
 }
@@ -330,10 +330,38 @@ def _gen_scribble(r, ops):
     return {"op": "scribble", "of": r.choice(cands[-6:]), "how": r.choice(["append", "clear", "overwrite", "reverse"])}
 
 
+SWEEP_ALGOS = ["bc", "bc", "snp", "rnp", "ckk", "kk", "dp", "cg", "multifit", "ffd", "bfd", "ff", "bf", "twothirds", "threequarters", "cover_dec", "greedy"]
+
+
+def _gen_sweep(r, pool, cfg):
+    """An INTERRUPT SWEEP: call A; the same algorithm on the same container with another size parameter, interrupted at
+    EVERY executed line in turn (one fresh interpreter per interruption point); then that second call again, undisturbed,
+    compared with a fresh interpreter. The analogue for C15 of C11's sweep over all clock readings: a window of a single
+    line between two statements (a marker set before the table it describes is cleared, say) cannot be hit by sampling."""
+    c = r.choice(pool)
+    focus = {"algo": r.choice(SWEEP_ALGOS), "pool": c["id"], "storm": True}
+    a = None
+    for _ in range(20):
+        a = _gen_call(r, pool, cfg, 0.0, focus)
+        if a.get("algo") == focus["algo"] and a["pool"] == c["id"]:
+            break
+    a["fault"] = None
+    b = _gen_retry(r, pool, dict(a, fault={"kind": "async"}))
+    b["fault"] = {"kind": "async", "at": "sweep"}
+    cc = copy.deepcopy(b)
+    cc["fault"] = None
+    return [a, b, cc]
+
+
 def gen_plan(seed, tier):
     cfg = TIERS[tier]
     r = core.rng(seed, "c15-swarm")
     pool = _gen_pool(r)
+    if r.random() < cfg.get("sweep_share", 0.0):
+        ops = _gen_sweep(r, pool, cfg)
+        used = {ops[0]["pool"]}
+        return {"prop": "C15", "pool": [c for c in pool if c["id"] in used], "ops": ops, "log": None, "b_max": cfg["b_max"],
+                "sweep": True, "sweep_max": cfg["sweep_max"]}
     nops = r.randint(5, cfg["max_ops"])
     p_fault = r.choice([0.0, 0.1, 0.25, 0.4])
     p_repeat = r.choice([0.05, 0.15, 0.3])
@@ -801,6 +829,10 @@ def _opkind(op):
 
 def _valid_plan(plan):
     ids = {c["id"] for c in plan["pool"]}
+    if plan.get("sweep"):
+        ops = plan["ops"]
+        if len(ops) != 3 or any(o["op"] != "call" or o["pool"] not in ids for o in ops) or (ops[1].get("fault") or {}).get("kind") != "async":
+            return False
     for i, op in enumerate(plan["ops"]):
         if op["op"] == "repeat":
             if not (0 <= op["of"] < i) or plan["ops"][op["of"]]["op"] in ("edit", "scribble"):
@@ -834,6 +866,8 @@ def execute(plan, seed=0):
     ops = plan["ops"]
     n = len(ops)
     tr.add("plan", nops=n, pool=[(c["id"], c["form"], len(c["values"])) for c in plan["pool"]])
+    if plan.get("sweep"):
+        return _execute_sweep(plan, res, tr)
 
     # 1. injected valueof failures are placed inside the count a fault-free run makes (measured in a fresh fork,
     #    with the containers in the state they have at that point of the history)
@@ -1039,6 +1073,67 @@ def execute(plan, seed=0):
     return res.finish(tr)
 
 
+def _execute_sweep(plan, res, tr):
+    ops = plan["ops"]
+
+    def fork(indices, kmap, measure=False):
+        try:
+            return call_in_fork(_child_run, (plan, indices, kmap, measure), timeout=CALL_WALL_WATCHDOG_S)
+        except ChildFailure as e:
+            if "StepBudgetExceeded" in str(e):
+                return None
+            raise
+    res.probe("interrupt_sweep_runs")
+    ref = fork([2], {})
+    m = fork([1], {}, measure=True)
+    if ref is None or m is None:
+        res.discarded = "over_step_budget"
+        tr.add("discard", why="step budget in the sweep's reference or measuring run")
+        return res.finish(tr)
+    fresh = _comparable(ops[2], ref[-1]["outcome"])
+    K = m[-1].get("line_events") or 0
+    tr.add("sweep", lines=K, fresh=_short(fresh), a=ops[0], b=ops[1])
+    if K == 0:
+        res.probe("async_interrupt_on_call_that_executes_no_library_line")
+        return res.finish(tr)
+    smax = plan.get("sweep_max", 160)
+    if K > 20000:
+        # a deterministic bound on the cost of one run: long calls are left to the sampled interrupts of ordinary histories
+        res.probe("interrupt_sweep_skipped_call_too_long")
+        return res.finish(tr)
+    if K > 3000:
+        smax = min(smax, 40)
+    ks = list(range(1, K + 1)) if K <= smax else sorted({1 + (i * (K - 1)) // (smax - 1) for i in range(smax)})
+    res.probe("interrupt_sweep_exhaustive" if K <= smax else "interrupt_sweep_sampled_evenly")
+    for k in ks:
+        hist = fork([0, 1, 2], {"1": k})
+        if hist is None:
+            res.discarded = "over_step_budget"
+            tr.add("discard", why="step budget inside the sweep", k=k)
+            return res.finish(tr)
+        res.evaluations += 1
+        res.nontrivial = 1
+        for rec in hist:
+            if rec.get("async_fired"):
+                res.fault("interrupt_at_arbitrary_executed_line")
+            if rec["mutated"]:
+                res.violate("input-mutated", step=rec["index"], op=ops[rec["index"]], containers=rec["mutated"], interrupted_at_line=k)
+                tr.add("sweep-point", k=k, mutated=rec["mutated"])
+                return res.finish(tr)
+        mine = _comparable(ops[2], hist[-1]["outcome"]) if hist[-1]["index"] == 2 else {"missing": True}
+        tr.add("sweep-point", k=k, interrupted=hist[1]["outcome"] if len(hist) > 1 else None, same=(mine == fresh))
+        if mine != fresh:
+            ref2 = fork([2], {})
+            if ref2 is None or _comparable(ops[2], ref2[-1]["outcome"]) != fresh:
+                res.note("unstable_reference")
+                continue
+            res.violate("differs-from-fresh", step=2, op=ops[2], in_history=_short(mine), fresh=_short(fresh),
+                        previous=[_opkind(ops[0]), _opkind(ops[1])], interrupted_at_line=k, of_lines=K)
+            break
+    res.cells.append("@shape:%016x" % core.H(["sweep", ops[0].get("algo")]))
+    return res.finish(tr)
+
+
 def _form(plan, cid):
     return next(c["form"] for c in plan["pool"] if c["id"] == cid)
 
@@ -1057,6 +1152,19 @@ def _short(x):
 def shrink_candidates(plan, clause):
     ops = plan["ops"]
     n = len(ops)
+    if plan.get("sweep"):
+        # the three operations are the sweep; only the container shrinks
+        for ci, c in enumerate(plan["pool"]):
+            if len(c["values"]) > 1:
+                for k in range(len(c["values"])):
+                    c2 = dict(c, values=c["values"][:k] + c["values"][k + 1:])
+                    if "names" in c:
+                        c2["names"] = c["names"][:k] + c["names"][k + 1:]
+                    yield dict(plan, pool=plan["pool"][:ci] + [c2] + plan["pool"][ci + 1:])
+        for i, op in enumerate(ops):
+            if op.get("out") not in ("Partition", "contents", "sums", "raw"):
+                yield dict(plan, ops=ops[:i] + [dict(op, out="Partition")] + ops[i + 1:])
+        return
 
     def drop(idxs):
         idxs = set(idxs)
